@@ -190,21 +190,24 @@ func main() {
 	}
 	outs := make([]shardOut, shards)
 	var wg sync.WaitGroup
+	shardArgs := func(i int) []string {
+		a := []string{
+			"-test.run", "^Test" + *prop + "$", "-test.timeout=0", "-test.count=1", "-test.v",
+			"-vf.tier=" + *tier, "-vf.seed=" + strconv.FormatUint(seed, 10),
+			"-vf.shard=" + strconv.Itoa(i), "-vf.shards=" + strconv.Itoa(shards),
+			"-vf.out=" + work, "-vf.scale=" + strconv.FormatFloat(*scale, 'g', -1, 64),
+			"-vf.replays=" + filepath.Join(root, "replays", *prop),
+		}
+		if *replay != "" {
+			a = append(a, "-vf.replay="+*replay)
+		}
+		return a
+	}
 	for i := 0; i < shards; i++ {
 		wg.Add(1)
 		go func(i int) {
 			defer wg.Done()
-			a := []string{
-				"-test.run", "^Test" + *prop + "$", "-test.timeout=0", "-test.count=1", "-test.v",
-				"-vf.tier=" + *tier, "-vf.seed=" + strconv.FormatUint(seed, 10),
-				"-vf.shard=" + strconv.Itoa(i), "-vf.shards=" + strconv.Itoa(shards),
-				"-vf.out=" + work, "-vf.scale=" + strconv.FormatFloat(*scale, 'g', -1, 64),
-				"-vf.replays=" + filepath.Join(root, "replays", *prop),
-			}
-			if *replay != "" {
-				a = append(a, "-vf.replay="+*replay)
-			}
-			outs[i].code, outs[i].log = run(ctx, bin, a, work)
+			outs[i].code, outs[i].log = run(ctx, bin, shardArgs(i), work)
 		}(i)
 	}
 	wg.Wait()
@@ -235,13 +238,32 @@ func main() {
 		code := outs[i].code
 		if code == 3 { // watchdog
 			inflight := filepath.Join(work, *prop+".inflight.json")
+			why, _ := os.ReadFile(strings.TrimSuffix(inflight, ".json") + ".why")
 			f, confirmed, note := confirmHang(bin, inflight, work, *prop)
 			if confirmed {
 				failures = append(failures, f)
-			} else {
-				infra = append(infra, fmt.Sprintf("shard %d: watchdog fired but the case did not reproduce alone (%s)", i, note))
+				continue
 			}
-			continue
+			// The limit was exceeded once but the case returns when it runs
+			// alone: a loaded machine, not the library. Not a verdict. The
+			// shard is run again (same seed, same cases), now that the other
+			// shards have finished; only if the watchdog fires again does the
+			// check end as inconclusive.
+			fmt.Printf("NOTE property=%s shard %d: watchdog fired (%s) but the case did not reproduce alone (%s); running the shard again\n", *prop, i, strings.TrimSpace(string(why)), note)
+			_ = os.Remove(inflight)
+			rctx, rcancel := context.WithTimeout(context.Background(), timeout)
+			code, outs[i].log = run(rctx, bin, shardArgs(i), work)
+			rcancel()
+			outs[i].code = code
+			if code == 3 {
+				why2, _ := os.ReadFile(strings.TrimSuffix(inflight, ".json") + ".why")
+				if f2, confirmed2, note2 := confirmHang(bin, inflight, work, *prop); confirmed2 {
+					failures = append(failures, f2)
+				} else {
+					infra = append(infra, fmt.Sprintf("shard %d: watchdog fired twice (%s / %s) but the cases did not reproduce alone (%s)", i, strings.TrimSpace(string(why)), strings.TrimSpace(string(why2)), note2))
+				}
+				continue
+			}
 		}
 		if code == 66 { // Go race detector with halt_on_error
 			cur := filepath.Join(work, fmt.Sprintf("%s.current.shard%d.json", *prop, i))
